@@ -162,6 +162,28 @@ def foreign_same(pre: dict, post: dict) -> bool:
 
 # --------------------------------------------------------------------------- stores under test
 KINDS = ("mem", "local", "path", "str")
+# home-relative locations ("~/sub/x.geff" as str / Path): the caller points $HOME at a temporary
+# directory (see `home_env`); the snapshot is taken of the expanded directory
+TILDE_KINDS = ("tilde-str", "tilde-path")
+
+
+@contextlib.contextmanager
+def home_env(tmp: str):
+    """$HOME -> tmp/home and cwd -> tmp for the duration (os.path.expanduser honours $HOME; a "~" that
+    is not expanded would create a literal ./~ directory, which then lands in tmp and is detectable)"""
+    home = os.path.join(os.path.realpath(tmp), "home")
+    os.makedirs(home, exist_ok=True)
+    old_home, old_cwd = os.environ.get("HOME"), os.getcwd()
+    os.environ["HOME"] = home
+    os.chdir(os.path.realpath(tmp))
+    try:
+        yield home
+    finally:
+        os.chdir(old_cwd)
+        if old_home is None:
+            os.environ.pop("HOME", None)
+        else:
+            os.environ["HOME"] = old_home
 
 
 class Target:
@@ -177,7 +199,11 @@ class Target:
         else:
             patch_local()
             assert tmp is not None
-            self.dir = os.path.join(os.path.realpath(tmp), name)
+            if kind in TILDE_KINDS:
+                self.tilde = "~/sub/" + name
+                self.dir = os.path.join(os.path.realpath(tmp), "home", "sub", name)
+            else:
+                self.dir = os.path.join(os.path.realpath(tmp), name)
             self.rec = Recorder()
             self.rec.root = self.dir
             REC = self.rec
@@ -190,6 +216,10 @@ class Target:
             return LocalStore(self.dir)
         if self.kind == "path":
             return Path(self.dir)
+        if self.kind == "tilde-str":
+            return self.tilde
+        if self.kind == "tilde-path":
+            return Path(self.tilde)
         return self.dir
 
     def snapshot(self) -> dict[str, bytes] | None:
@@ -233,7 +263,7 @@ def quiet(target: Target):
 def add_siblings(target: Target, fmt: int):
     """foreign members + a foreign root attribute in the same zarr container"""
     with quiet(target):
-        r = zarr.open_group(target.handle(), mode="a", zarr_format=fmt)
+        r = zarr.open_group(target.mem if target.kind == "mem" else target.dir, mode="a", zarr_format=fmt)
         r["raw"] = np.arange(4, dtype="int32")
         g = r.require_group("other/sub")
         g.attrs["note"] = "keep"
@@ -669,7 +699,7 @@ def model_graph(spec: dict, fmt: int, entry: str = "write_arrays", valid: bool =
 
 
 def model_kind(kind: str) -> str:
-    return {"mem": "mem", "local": "loc", "path": "path", "str": "path"}[kind]
+    return {"mem": "mem", "local": "loc", "path": "path", "str": "path", "tilde-str": "path", "tilde-path": "path"}[kind]
 
 
 def model_entry(entry: str) -> str:
